@@ -1,0 +1,16 @@
+//go:build verif
+
+// Package schb is a verification-only facade (build tag "verif") over
+// internal/structure. It adds no behaviour: it only makes APIFromImage
+// reachable from the external verification harness (properties C15, C18).
+package schb
+
+import (
+	"github.com/pentops/j5/gen/j5/source/v1/source_j5pb"
+	"github.com/pentops/j5/internal/structure"
+)
+
+// APIFromImage is structure.APIFromImage.
+func APIFromImage(image *source_j5pb.SourceImage) (*source_j5pb.API, error) {
+	return structure.APIFromImage(image)
+}
